@@ -389,10 +389,21 @@ class NpShim:
         o = tm.const(1, INT) if dtype in (int, onp.int_) else tm.ONE
         return PArr(shape, lambda *i: o, label='ones')
 
-    def arange(self, n):
+    def arange(self, n, stop=None):
+        if stop is not None:
+            if _concrete(n) and _concrete(stop):
+                return self._real.arange(_int(n), _int(stop))
+            lo, hi = I(n), I(stop)
+            return PArr((hi - lo,), lambda k: lo + k, INT, label='arange')
         if _concrete(n):
             return self._real.arange(_int(n))
         return PArr((n,), lambda k: k, INT, label='arange')
+
+    def vstack(self, parts):
+        parts = list(parts)
+        if any(isinstance(p, PArr) for p in parts):
+            return self.concatenate(parts, axis=0)
+        return self._real.vstack(parts)
 
     def concatenate(self, parts, axis=0):
         parts = list(parts)
